@@ -98,20 +98,23 @@ def gen(chk):
                 out.append(("pinned-%s" % which, s, {"expect": "ok" if ok else "maxsize"}))
     # (c) endless / oversized answers to any one request
     for victim in ("2.root.json", "timestamp.json", "snapshot.json", "targets.json", "d1.json"):
-        for pinned in ("exact", None):
+        for pinned, hashed in (("exact", None), (None, None), ("exact", "exact"), (None, "exact")):
             s = scen.Scen()
             d1 = s.targets(version=1, targets=[{"name": "d/x", "content": "x"}], sigs=scen.valid([7]))
             r = s.root()
             tgt = s.targets(version=1, delegations=deleg([7], [drole("d1", paths=("d/*",))]))
-            snap = s.snapshot(version=1, meta={"targets.json": scen.meta(tgt, 1, pinned, None),
-                                              "d1.json": scen.meta(d1, 1, pinned, None)})
-            ts = s.timestamp(version=1, meta={"snapshot.json": scen.meta(snap, 1, pinned, None)})
+            # (the digest of a file listed with its digest goes through the other download path, fetch_sha256: an endless
+            # answer must be cut off there as well, not read to its end - which never comes; run one per process)
+            snap = s.snapshot(version=1, meta={"targets.json": scen.meta(tgt, 1, pinned, hashed),
+                                              "d1.json": scen.meta(d1, 1, pinned, hashed)})
+            ts = s.timestamp(version=1, meta={"snapshot.json": scen.meta(snap, 1, pinned, hashed)})
             files = scen.top_files(False, ts, snap, 1, tgt, 1, delegated=[("d1", 1, d1)])
             r2 = s.root(version=2, sigs=scen.valid([0]))
             files["2.root.json"] = {"doc": r2}
             files[victim] = dict(files[victim], endless=True)
             s.cycle(r, files, limits={"root": 100000, "timestamp": 100000, "snapshot": 100000, "targets": 100000})
-            out.append(("endless-%s" % victim, s, {"expect": "maxsize"}))
+            out.append(("endless-%s%s" % (victim, "-digest-listed" if hashed else ""), s,
+                        dict({"expect": "maxsize"}, **({"risky": True} if hashed else {}))))
     # (d) root chains versus max_root_updates
     for chain in (0, 1, 2, 3, 5):
         for updates in (0, 1, 2, 3, 4, 1024, 2**63, U64 - 1, U64):
